@@ -764,6 +764,12 @@ func writeTo(conn net.Conn, p []byte, idleTimeout time.Duration) error {
 
 // WriteBuffersTo submits the packet. Keep synchronised with write!
 func writeBuffersTo(conn net.Conn, p net.Buffers, idleTimeout time.Duration) error {
+	// A Write of zero bytes (empty payload) can fail or block on
+	// connections without writev(2), after the packet went out in full.
+	for len(p) != 0 && len(p[len(p)-1]) == 0 {
+		p = p[:len(p)-1]
+	}
+
 	if idleTimeout != 0 {
 		// Abandon timer to prevent waking up the system for no good reason.
 		// https://developer.apple.com/library/archive/documentation/Performance/Conceptual/EnergyGuide-iOS/MinimizeTimerUse.html
